@@ -73,7 +73,22 @@ typedef sdefs.X Blob
 namespace go slim.app
 service S { void f(1: sbase.Blob b) }
 `
+	// field names that land on the reserved method names of a struct-like and on the reserved
+	// locals of a method: every one must be renamed by the tables
+	builtinMembers := `namespace go builtin.members
+struct B { 1: i32 read, 2: i32 write, 3: string string, 4: i32 deep_equal, 5: i32 carrying_unknown_fields, 6: i32 get_read, 7: optional i32 is_set_read, 8: i32 read_field1, 9: i32 write_field_1, 10: i32 field1_deep_equal }
+union BU { 1: i32 count_set_fields, 2: i32 read, 3: string string }
+exception BE { 1: string error, 2: string message, 3: i32 write }
+exception BF { 1: string error }
+service Svc { B read(1: B read, 2: BU r, 3: i32 _result) throws (1: BE err, 2: BF ctx) }
+`
+	// finding: InitDefault is emitted by the struct template under a fixed name that no table knows
+	fixedMember := `namespace go fixed.member
+struct S { 1: i32 init_default, 2: i32 other }
+`
 	return []Prog{
+		{Name: "corpus-builtin-member-names", Files: map[string]string{"bm.thrift": builtinMembers}, Main: "bm.thrift"},
+		{Name: "corpus-field-init-default", Files: map[string]string{"fm.thrift": fixedMember}, Main: "fm.thrift"},
 		{Name: "corpus-leading-underscore", Files: map[string]string{"ub.thrift": underB, "ua.thrift": underA}, Main: "ub.thrift"},
 		{Name: "corpus-slim-typedef-chain", Files: map[string]string{"sapp.thrift": slimApp, "sbase.thrift": slimBase, "sdefs.thrift": slimDefs}, Main: "sapp.thrift"},
 		{Name: "corpus-throws-id-0", Files: map[string]string{"t0.thrift": throws0}, Main: "t0.thrift"},
